@@ -1035,6 +1035,36 @@ def suite_ser(g, scale):
             g.emit("rd64 %s %s %s" % (y, entry, x))
             g.emit("wf64 %s" % y)
         g.count("ser64:max-run-count")
+    # 1g. bitmaps MADE BY THE AGGREGATES, then validated and serialized: all inputs in one bucket (roaring64.ParOr then runs the 32-bit ParOr),
+    #     at least two chunks, a chunk that is an array / a run / a small container in the first input and a non-full RUN container in the
+    #     second, absent from the others, whose union stays at or under 4096 values — in both argument orders and for every aggregate
+    for hi, k in ((0, 3), (0x7FFFFFFF, 0), (7, 65535)):
+        base = (hi << 32) + k * 65536
+        other = (hi << 32) + ((k + 2) % 65536) * 65536
+        shapes = []
+        a = g.fresh("m"); g.emit("new64 %s" % a)
+        g.emit("addstride64 %s %d 13 300" % (a, base + 1)); g.emit("add64 %s %d" % (a, other + 5)); shapes.append(a)
+        a = g.fresh("m"); g.emit("new64 %s" % a)
+        g.emit("addr64 %s %d %d" % (a, base + 100, base + 900)); g.emit("add64 %s %d" % (a, other + 5)); g.emit("opt64 %s" % a); shapes.append(a)
+        a = g.fresh("m"); g.emit("new64 %s" % a)
+        g.emit("add64 %s %d" % (a, base + 40000)); g.emit("addr64 %s %d %d" % (a, other, other + 65536)); shapes.append(a)
+        b = g.fresh("m"); g.emit("new64 %s" % b)
+        g.emit("addr64 %s %d %d" % (b, base + 5000, base + 6000)); g.emit("addr64 %s %d %d" % (b, base + 20000, base + 21500))
+        g.emit("add64 %s %d" % (b, other + 70)); g.emit("opt64 %s" % b)
+        c = g.fresh("m"); g.emit("new64 %s" % c)
+        g.emit("addstride64 %s %d 7 50" % (c, other + 1000))
+        for a in shapes:
+            for args in ((a, b), (b, a), (a, b, c), (c, a, b)):
+                for op in ("paror64 %s 0", "paror64 %s 2", "fastor64 %s"):
+                    y = g.fresh("y")
+                    g.emit((op % y) + " " + " ".join(args))
+                    g.emit("wf64 %s" % y)
+                    g.emit("ser64 %s" % y)
+                    z = g.fresh("d")
+                    g.emit("rd64 %s %s %s" % (z, ENTRIES[(len(g.lines)) % len(ENTRIES)], y))
+                    g.emit("eq64 %s %s" % (z, y))
+                    g.emit("wf64 %s" % z)
+        g.count("ser64:made-by-aggregates")
     # 2. small streams: spec reading of the bytes, truncation sweep, header corruption
     for _ in range(int(10 * scale)):
         x = g.fresh("s")
